@@ -151,7 +151,12 @@ def decompose_stream(ctx, cirq, mods, checks, n):
             if how == 'decompose' and len(pieces) == 1 and pieces[0] == op:
                 ctx.count(how, [g.key(), 'atomic'], False)
                 continue
-            term = pieces_to_coq(cirq, pieces, qs)
+            try:
+                term = pieces_to_coq(cirq, pieces, qs)
+            except Exception as e:
+                ctx.violation(f'decompose:{g.fam}:raises', f'a piece of {how}({g.fam} {g.key()[1]}) has no consistent unitary: {type(e).__name__}: {e}',
+                              dict(kind='decompose', gate=g.key(), how=how))
+                continue
             if term is None:
                 ctx.count(how, [g.key(), 'non-unitary pieces'], False)
                 continue
